@@ -61,6 +61,13 @@ def gen_model(rng, L, bc='finite'):
     return kind, p
 
 
+def maybe_plus_hc(rng, p):
+    """`explicit_plus_hc`: the MPO holds half of H, the effective Hamiltonian is wrapped as H_eff + H_eff^dagger"""
+    if rng.random() < 0.15:
+        p['explicit_plus_hc'] = True
+    return p
+
+
 def gen_product_state(rng, kind, p):
     L = p['L']
     if kind == 'TFI':
@@ -92,6 +99,7 @@ def gen_case(rng, quick=True, part=None):
     if kind == 'Spin' and p.get('S') == 1.0:
         L = min(L, 6)
         p['L'] = L
+    maybe_plus_hc(rng, p)
     engine = rng.choice(['TwoSiteDMRGEngine', 'TwoSiteDMRGEngine', 'SingleSiteDMRGEngine'])
     if L == 3 and engine == 'TwoSiteDMRGEngine' and rng.random() < 0.3:
         engine = 'SingleSiteDMRGEngine'
@@ -129,7 +137,7 @@ def gen_case(rng, quick=True, part=None):
         if o['mixer']:
             o['mixer_params'] = {'amplitude': rng.choice([1e-3, 1e-5]), 'decay': rng.choice([2.0, 1.5]),
                                  'disable_after': rng.choice([1, 2, 3, 15])}
-        o['diag_method'] = rng.choice(['default', 'default', 'lanczos', 'lanczos', 'ED_block', 'arpack'])
+        o['diag_method'] = rng.choice(['default', 'default', 'lanczos', 'lanczos', 'ED_block', 'arpack', 'ED_all'])
         chi = rng.choice([1, 2, 3, 4, 8, 16, 100])
         o['trunc_params'] = {'chi_max': chi, 'svd_min': rng.choice([1e-12, 1e-10, None])}
         if rng.random() < 0.25:
